@@ -134,11 +134,52 @@ enum WAct {
     Tup(u8),
     /// the out!/outln! macros of output_macro.rs
     Macro(u8),
+    /// &str / String of `len` bytes with separator bytes inside the pattern: `sep` 0 = LF, 1 = CR, 2 = SP,
+    /// 3 = CR LF; `places` bit 0 = at the start, bit 1 = in the middle, bit 2 = at the end, bit 3 = every 17th byte
+    Text { len: usize, salt: u8, sep: u8, places: u8, owned: bool },
 }
 
 fn pattern(len: usize, salt: u8) -> String {
     // position-dependent letters: loss, duplication or reordering of a piece changes the text
-    (0..len).map(|i| (b'a' + ((i * 7 + 3 + salt as usize) % 26) as u8) as char).collect()
+    // (letter i = 'a' + (7 i + 3 + salt) mod 26: period 26, written unit by unit)
+    let unit: Vec<u8> = (0..26).map(|i| b'a' + ((i * 7 + 3 + salt as usize) % 26) as u8).collect();
+    let mut v = Vec::with_capacity(len);
+    while v.len() + 26 <= len {
+        v.extend_from_slice(&unit);
+    }
+    v.extend_from_slice(&unit[..len - v.len()]);
+    String::from_utf8(v).unwrap()
+}
+
+/// `pattern(len, salt)` with separator bytes written over it (see `WAct::Text`)
+fn text(len: usize, salt: u8, sep: u8, places: u8) -> String {
+    let mut v = pattern(len, salt).into_bytes();
+    let sepb: &[u8] = match sep {
+        0 => b"\n",
+        1 => b"\r",
+        2 => b" ",
+        _ => b"\r\n",
+    };
+    let mut put = |p: usize| {
+        for (i, &c) in sepb.iter().enumerate() {
+            if p + i < len {
+                v[p + i] = c;
+            }
+        }
+    };
+    if places & 1 != 0 {
+        put(0);
+    }
+    if places & 2 != 0 {
+        put(len / 2);
+    }
+    if places & 4 != 0 {
+        put(len.saturating_sub(sepb.len()));
+    }
+    if places & 8 != 0 {
+        (5..len).step_by(17).for_each(&mut put);
+    }
+    String::from_utf8(v).unwrap()
 }
 
 static FILL_BASE: std::sync::OnceLock<String> = std::sync::OnceLock::new();
@@ -175,6 +216,7 @@ impl WAct {
             WAct::Macro(1) => "\n".to_string(),
             WAct::Macro(2) => "x 18446744073709551615".to_string(),
             WAct::Macro(_) => "7\n8 9\n".to_string(),
+            WAct::Text { len, salt, sep, places, .. } => text(*len, *salt, *sep, *places),
         }
     }
 
@@ -203,6 +245,8 @@ impl WAct {
                 _ => w.write(&T8),
             },
             WAct::Macro(_) => unreachable!("macro actions are applied by apply_macro"),
+            WAct::Text { owned: true, .. } => w.write(&self.expected()),
+            WAct::Text { .. } => w.write(&self.expected().as_str()),
         }
     }
 }
@@ -236,6 +280,8 @@ impl WAct {
                 _ => W::write(&T8, w),
             },
             WAct::Macro(_) => unreachable!("macro actions are applied by apply_macro"),
+            WAct::Text { owned: true, .. } => W::write(&self.expected(), w),
+            WAct::Text { .. } => W::write(&self.expected().as_str(), w),
         }
     }
 }
@@ -529,6 +575,264 @@ fn judge(c: &Case) -> Result<Exec, String> {
 }
 
 // ---------------------------------------------------------------------------------------------
+// several writers alive at once
+
+/// A history over several LIVE writers of one thread, each over a sink of its own.
+#[derive(Clone, Debug, Serialize, Deserialize)]
+struct Writers {
+    /// fill level of each writer before the history (reached by one verbatim string, like `Case::fill`)
+    fills: Vec<usize>,
+    /// (writer, write action) in call order
+    steps: Vec<(usize, WAct)>,
+    /// the order in which the writers end; true = explicit flush() before the drop
+    finish: Vec<(usize, bool)>,
+    /// (k, actions): before step k (k = number of steps: before the first writer ends) ANOTHER thread creates a
+    /// writer over a sink of its own, applies the actions and drops it, while the writers here stay alive
+    #[serde(default)]
+    elsewhere: Option<(usize, Vec<WAct>)>,
+}
+
+impl Writers {
+    fn expected(&self, i: usize) -> Vec<u8> {
+        let mut s = filler(self.fills[i]);
+        for (_, a) in self.steps.iter().filter(|(w, _)| *w == i) {
+            s.push_str(&a.expected());
+        }
+        s.into_bytes()
+    }
+    fn signature(&self, family: &str) -> String {
+        let short = |a: &WAct| serde_json::to_string(a).unwrap().chars().take(90).collect::<String>();
+        let mut sig = format!("{}:fills={:?}:steps=[{}]:finish={:?}", family, self.fills, self.steps.iter().map(|(w, a)| format!("w{w}<-{}", short(a))).collect::<Vec<_>>().join(", "), self.finish);
+        if let Some((k, acts)) = &self.elsewhere {
+            sig.push_str(&format!(":other_thread_before_step_{k}=[{}]", acts.iter().map(short).collect::<Vec<_>>().join(", ")));
+        }
+        sig
+    }
+}
+
+/// a sink another thread can own
+struct SharedSink(std::sync::Arc<std::sync::Mutex<Vec<u8>>>);
+
+impl Write for SharedSink {
+    fn write(&mut self, buf: &[u8]) -> std::io::Result<usize> {
+        self.0.lock().unwrap().extend_from_slice(buf);
+        Ok(buf.len())
+    }
+    fn flush(&mut self) -> std::io::Result<()> {
+        Ok(())
+    }
+}
+
+/// create, use and drop one writer on a thread of its own; Err(message) if its sink does not hold its bytes
+fn writer_on_another_thread(acts: &[WAct]) -> Result<(), String> {
+    let acts = acts.to_vec();
+    std::thread::spawn(move || {
+        let out = std::sync::Arc::new(std::sync::Mutex::new(vec![]));
+        let sink = SharedSink(out.clone());
+        catch(move || {
+            let mut w = std::mem::ManuallyDrop::new(Writer::new(Box::new(sink)));
+            for a in &acts {
+                a.apply(&mut w);
+            }
+            drop(std::mem::ManuallyDrop::into_inner(w));
+            acts.iter().map(|a| a.expected()).collect::<String>().into_bytes()
+        })
+        .map_err(|p| format!("the writer on the other thread panicked: {p}"))
+        .and_then(|exp| {
+            let got = out.lock().unwrap();
+            if *got == exp {
+                Ok(())
+            } else {
+                Err(format!("the sink of the writer on the other thread: {}", diff_summary(&got, &exp)))
+            }
+        })
+    })
+    .join()
+    .unwrap_or_else(|_| Err("harness: the other thread panicked outside the writer".into()))
+}
+
+/// One execution on the calling thread.  Ok(some sink was written to more than once) | Err(message).
+fn judge_writers_here(c: &Writers) -> Result<(bool, Vec<Vec<u8>>), String> {
+    let n = c.fills.len();
+    let outs: Vec<RefCell<Vec<u8>>> = (0..n).map(|_| RefCell::new(vec![])).collect();
+    let calls: Vec<Cell<usize>> = (0..n).map(|_| Cell::new(0)).collect();
+    let first_len = Cell::new(0);
+    let r = catch(|| -> Result<(), String> {
+        // ManuallyDrop: a panicking operation leaks every live writer instead of dropping it while unwinding
+        let mut ws: Vec<Option<std::mem::ManuallyDrop<Writer>>> = (0..n).map(|i| Some(std::mem::ManuallyDrop::new(Writer::new(Box::new(Sink { out: &outs[i], plan: &[], next: 0, calls: &calls[i], first_len: &first_len }))))).collect();
+        for (i, &f) in c.fills.iter().enumerate() {
+            if f > 0 {
+                ws[i].as_mut().unwrap().write(&filler(f).as_str());
+            }
+        }
+        for k in 0..=c.steps.len() {
+            if let Some((_, acts)) = c.elsewhere.as_ref().filter(|e| e.0 == k) {
+                writer_on_another_thread(acts)?;
+            }
+            if let Some((i, a)) = c.steps.get(k) {
+                a.apply(ws[*i].as_mut().unwrap());
+            }
+        }
+        for &(i, flush) in &c.finish {
+            let mut w = ws[i].take().unwrap();
+            if flush {
+                w.flush();
+                let (have, want) = (outs[i].borrow().len(), c.expected(i).len());
+                if have != want {
+                    return Err(format!("after flush() of writer {i} its sink had {have} of the {want} bytes written to it"));
+                }
+            }
+            drop(std::mem::ManuallyDrop::into_inner(w));
+        }
+        Ok(())
+    });
+    match r {
+        Err(p) => return Err(format!("a writer panicked: {p}")),
+        Ok(Err(m)) => return Err(m),
+        Ok(Ok(())) => {}
+    }
+    for i in 0..n {
+        let (got, exp) = (outs[i].borrow(), c.expected(i));
+        if *got != exp {
+            return Err(format!("sink of writer {i} (of {n} live on this thread): {}", diff_summary(&got, &exp)));
+        }
+    }
+    Ok((calls.iter().any(|k| k.get() >= 2), outs.into_iter().map(|o| o.into_inner()).collect()))
+}
+
+/// One history of live writers on a FRESH thread: whatever a library keeps per thread starts from the same
+/// state in every execution.  This is how a replay runs, and how the enumeration re-runs a history that
+/// failed on its worker thread (whose earlier histories are not part of the record) before recording it.
+fn judge_writers(c: &Writers) -> Result<(bool, Vec<Vec<u8>>), String> {
+    std::thread::scope(|s| s.spawn(|| judge_writers_here(c)).join()).unwrap_or_else(|_| Err("harness: the case thread panicked".into()))
+}
+
+/// The reduced write alphabet of the live-writer histories: an integer, a line end, a word, a two-line
+/// string, a vector, and a string longer than the buffer (its writer flushes in the middle of the history).
+fn writers_alphabet(b: usize) -> Vec<WAct> {
+    vec![
+        WAct::Int(IntVal::I32(-12345)),
+        WAct::Ch(b'\n'),
+        WAct::Str(3, 1),
+        WAct::Text { len: 46, salt: 2, sep: 0, places: 2, owned: false },
+        WAct::VecI64(vec![1, -2, 3]),
+        WAct::Str(b + 1, 2),
+    ]
+}
+
+/// all sequences of 1..=max_len (writer, action) steps
+fn step_sequences(n_writers: usize, acts: &[WAct], max_len: usize) -> Vec<Vec<(usize, WAct)>> {
+    let symbols: Vec<(usize, WAct)> = (0..n_writers).flat_map(|w| acts.iter().map(move |a| (w, a.clone()))).collect();
+    let mut all: Vec<Vec<(usize, WAct)>> = vec![];
+    let mut level: Vec<Vec<(usize, WAct)>> = vec![vec![]];
+    for _ in 0..max_len {
+        level = level.iter().flat_map(|p| symbols.iter().map(move |s| p.iter().cloned().chain([s.clone()]).collect())).collect();
+        all.extend(level.iter().cloned());
+    }
+    all
+}
+
+fn build_writers_cases(b: usize) -> Vec<Writers> {
+    let acts = writers_alphabet(b);
+    let mut cases = vec![];
+    // two live writers: every history of <= 3 writes, ended in both orders, by drop alone and by flush + drop
+    for fills in [vec![0, 0], vec![5, 0], vec![0, b - 2], vec![b - 2, b - 2]] {
+        for steps in step_sequences(2, &acts, 3) {
+            for order in [[0, 1], [1, 0]] {
+                for flush in [false, true] {
+                    cases.push(Writers { fills: fills.clone(), steps: steps.clone(), finish: order.iter().map(|&w| (w, flush)).collect(), elsewhere: None });
+                }
+            }
+        }
+    }
+    // three live writers (four actions): every history of <= 3 writes, ended in every order
+    let acts3: Vec<WAct> = [0, 1, 3, 5].iter().map(|&i| acts[i].clone()).collect();
+    for fills in [vec![0, 0, 0], vec![b - 2, 0, 3]] {
+        for steps in step_sequences(3, &acts3, 3) {
+            for order in [[0, 1, 2], [0, 2, 1], [1, 0, 2], [1, 2, 0], [2, 0, 1], [2, 1, 0]] {
+                for flush in [false, true] {
+                    if flush && order != [0, 1, 2] && order != [2, 1, 0] {
+                        continue;
+                    }
+                    cases.push(Writers { fills: fills.clone(), steps: steps.clone(), finish: order.iter().map(|&w| (w, flush)).collect(), elsewhere: None });
+                }
+            }
+        }
+    }
+    // one or two writers live here while another thread creates, uses and drops a writer, at every point of
+    // every history of <= 2 writes
+    for n in [1usize, 2] {
+        for fills in [vec![0; n], vec![b - 2; n]] {
+            for steps in step_sequences(n, &acts, 2) {
+                for k in 0..=steps.len() {
+                    for other in [&acts[0], &acts[3], &acts[5]] {
+                        cases.push(Writers { fills: fills.clone(), steps: steps.clone(), finish: (0..n).map(|w| (w, k % 2 == 0)).collect(), elsewhere: Some((k, vec![other.clone(), acts[2].clone()])) });
+                    }
+                }
+            }
+        }
+    }
+    cases
+}
+
+fn run_writers_family(name: &'static str, cases: &[Writers]) -> Tot {
+    cases
+        .par_iter()
+        .enumerate()
+        .map(|(i, c)| {
+            let mut t = Tot { execs: 1, ..Default::default() };
+            let verdict = judge_writers_here(c).or_else(|on_worker| match judge_writers(c) {
+                Err(fresh) => Err(fresh),
+                Ok(_) => Err(format!("{on_worker} — on a worker thread that had run other histories before; the same history passes on a fresh thread, so the record below is not sufficient to reproduce it")),
+            });
+            match verdict {
+                Ok((flushed_inside, sinks)) => {
+                    t.flush_triggering = flushed_inside as u64;
+                    t.digest = fnv(&[&(i as u64).to_le_bytes()[..], &sinks.concat()].concat());
+                }
+                Err(m) => t.fails.push((i, name, AnyCase::Many(c.clone()), m)),
+            }
+            t
+        })
+        .reduce(Tot::default, merge)
+}
+
+/// what a failure record and a replay file carry: a single-writer case or a history of several live writers
+#[derive(Clone, Debug, Serialize, Deserialize)]
+enum AnyCase {
+    One(Case),
+    Many(Writers),
+}
+
+impl AnyCase {
+    fn signature(&self, family: &str) -> String {
+        match self {
+            AnyCase::One(c) => c.signature(family),
+            AnyCase::Many(c) => c.signature(family),
+        }
+    }
+    fn describe(&self) -> String {
+        match self {
+            AnyCase::One(c) => format!("fill level {} then {:?}{}, {}", c.fill, c.acts.iter().map(|a| format!("{:?}", a).chars().take(60).collect::<String>()).collect::<Vec<_>>(), if c.via_trait { " through Writable::write" } else { "" }, c.finish_name()),
+            AnyCase::Many(c) => format!(
+                "{} writers live on one thread over separate sinks, fill levels {:?}; writes in call order {:?}{}; then (writer, flush first) {:?}",
+                c.fills.len(),
+                c.fills,
+                c.steps.iter().map(|(w, a)| format!("w{w}<-{}", format!("{:?}", a).chars().take(60).collect::<String>())).collect::<Vec<_>>(),
+                c.elsewhere.as_ref().map_or(String::new(), |(k, a)| format!("; before step {k} another thread creates a writer, writes {:?} and drops it", a.iter().map(|a| format!("{:?}", a).chars().take(40).collect::<String>()).collect::<Vec<_>>())),
+                c.finish
+            ),
+        }
+    }
+    fn judge(&self) -> Result<(), String> {
+        match self {
+            AnyCase::One(c) => judge(c).map(|_| ()),
+            AnyCase::Many(c) => judge_writers(c).map(|_| ()),
+        }
+    }
+}
+
+// ---------------------------------------------------------------------------------------------
 
 fn int_alphabet() -> Vec<WAct> {
     let mut v = vec![];
@@ -595,6 +899,43 @@ fn alphabet(b: usize) -> Vec<WAct> {
     for k in 0..4 {
         v.push(WAct::Macro(k));
     }
+    for c in [b'\r', b'\t'] {
+        v.push(WAct::Ch(c));
+    }
+    v.extend(text_alphabet(b));
+    v
+}
+
+/// Strings that are not one word: LF, CR, SP or CR LF at the start, in the middle, at the end, at all three,
+/// and at every 17th byte, in strings of 1, 2, 3 and 46 bytes (&str with every separator, String with LF) and
+/// of b-1, b+1 and 2b+1 bytes (LF; middle / all three / every 17th).  Distinct texts only.
+fn text_alphabet(b: usize) -> Vec<WAct> {
+    let mut v: Vec<WAct> = vec![];
+    let mut seen = std::collections::HashSet::new();
+    let mut add = |a: WAct, v: &mut Vec<WAct>| {
+        if seen.insert((matches!(a, WAct::Text { owned: true, .. }), a.expected())) {
+            v.push(a);
+        }
+    };
+    for (li, len) in [1usize, 2, 3, 46].into_iter().enumerate() {
+        for sep in 0..4u8 {
+            for places in [1u8, 2, 4, 7, 8] {
+                if places == 8 && len < 46 {
+                    continue;
+                }
+                add(WAct::Text { len, salt: li as u8 + sep, sep, places, owned: false }, &mut v);
+                if sep == 0 {
+                    add(WAct::Text { len, salt: li as u8 + 5, sep, places, owned: true }, &mut v);
+                }
+            }
+        }
+    }
+    for (li, len) in [b - 1, b + 1, 2 * b + 1].into_iter().enumerate() {
+        for places in [2u8, 7, 8] {
+            add(WAct::Text { len, salt: li as u8 + 9, sep: 0, places, owned: false }, &mut v);
+            add(WAct::Text { len, salt: li as u8 + 13, sep: 0, places, owned: true }, &mut v);
+        }
+    }
     v
 }
 
@@ -629,7 +970,7 @@ struct Tot {
     /// executions in which bytes reached the sink only through the final drop
     delivered_by_drop: u64,
     digest: u64,
-    fails: Vec<(usize, &'static str, Case, String)>,
+    fails: Vec<(usize, &'static str, AnyCase, String)>,
 }
 
 fn merge(mut a: Tot, b: Tot) -> Tot {
@@ -674,7 +1015,7 @@ fn run_family_as(name: &'static str, cases: &[Case], b: usize, offset: usize, va
                     // order-independent digest of (case index, sink bytes): equal across build profiles
                     t.digest = fnv(&[&(i as u64).to_le_bytes()[..], ex.out.as_ref().unwrap()].concat());
                 }
-                Err(m) => t.fails.push((i, name, c, m)),
+                Err(m) => t.fails.push((i, name, AnyCase::One(c), m)),
             }
             t
         })
@@ -816,8 +1157,8 @@ fn confirm(v: &Value) -> Result<(), String> {
     if v["kind"] == "profile_digest" {
         return Err("sink contents differ between the release and the debug-assertions build (re-run the check to compare)".into());
     }
-    let c: Case = serde_json::from_value(v["case"].clone()).map_err(|e| e.to_string())?;
-    judge(&c).map(|_| ())
+    let c: AnyCase = serde_json::from_value(v["case"].clone()).map_err(|e| e.to_string())?;
+    c.judge()
 }
 
 /// the flush-per-write (debug assertions) build of this engine, next to the release one
@@ -867,8 +1208,12 @@ fn the_pass(quick: bool, with_rendering_thorough: bool) -> Result<PassOut, Strin
     for &f in &fills {
         for a in &acts {
             // the very long strings only at a reduced set of fill levels
-            let long = matches!(a, WAct::Str(n, _) | WAct::Owned(n, _) if *n >= b - 1) || matches!(a, WAct::VecI64(v) if v.len() > 64) || matches!(a, WAct::VecStr(v) if v.len() > 64);
+            let long = matches!(a, WAct::Str(n, _) | WAct::Owned(n, _) | WAct::Text { len: n, .. } if *n >= b - 1) || matches!(a, WAct::VecI64(v) if v.len() > 64) || matches!(a, WAct::VecStr(v) if v.len() > 64);
             if long && !(f <= 2 || f + 2 >= b || f % 4093 == 0) {
+                continue;
+            }
+            // the strings with separators inside: every fill level near the two ends, every fourth of the others
+            if matches!(a, WAct::Text { .. }) && f > 64 && f + 64 < b && f % 4084 != 0 {
                 continue;
             }
             for flush in [true, false] {
@@ -911,7 +1256,7 @@ fn the_pass(quick: bool, with_rendering_thorough: bool) -> Result<PassOut, Strin
     families.push(("drop_by_unwinding", unwound, executed));
 
     // family 2: two writes after the fill (a flush between them must not repeat or lose anything)
-    let short_acts: Vec<WAct> = acts.iter().filter(|a| !matches!(a, WAct::Str(n, _) | WAct::Owned(n, _) if *n > 64) && !matches!(a, WAct::VecI64(v) if v.len() > 64) && !matches!(a, WAct::VecStr(v) if v.len() > 64)).cloned().collect();
+    let short_acts: Vec<WAct> = acts.iter().filter(|a| !matches!(a, WAct::Text { .. }) && !matches!(a, WAct::Str(n, _) | WAct::Owned(n, _) if *n > 64) && !matches!(a, WAct::VecI64(v) if v.len() > 64) && !matches!(a, WAct::VecStr(v) if v.len() > 64)).cloned().collect();
     let firsts: Vec<&WAct> = short_acts.iter().step_by(7).collect();
     let mut cases = vec![];
     for &f in fills.iter().filter(|f| **f + 80 >= b || **f <= 2) {
@@ -921,6 +1266,17 @@ fn the_pass(quick: bool, with_rendering_thorough: bool) -> Result<PassOut, Strin
                     continue;
                 }
                 cases.push(Case::new(f, vec![(*a).clone(), c.clone()], f % 2 == 0, vec![]));
+            }
+        }
+    }
+    // ... and the second write a string with LF / CR LF inside it, after a first write that leaves a
+    // started line, a finished line, or nothing behind (every short text of the alphabet with these separators)
+    let t = |len, sep, places| WAct::Text { len, salt: 21, sep, places, owned: false };
+    let text_firsts = [WAct::Int(IntVal::I32(-5)), WAct::Ch(b'a'), WAct::Ch(b'\n'), WAct::Str(0, 0), WAct::Str(45, 3), WAct::VecI64(vec![1, -2, 3]), t(3, 0, 4), t(3, 0, 2), t(3, 0, 1), t(46, 3, 2)];
+    for &f in fills.iter().filter(|f| **f + 80 >= b || **f <= 2) {
+        for a in &text_firsts {
+            for c in acts.iter().filter(|c| matches!(c, WAct::Text { len, sep: 0 | 3, .. } if *len <= 64)) {
+                cases.push(Case::new(f, vec![a.clone(), c.clone()], f % 2 == 0, vec![]));
             }
         }
     }
@@ -942,7 +1298,8 @@ fn the_pass(quick: bool, with_rendering_thorough: bool) -> Result<PassOut, Strin
     let mut cases = vec![];
     let fault_fills: Vec<usize> = fills.iter().copied().filter(|f| *f + 48 >= b || *f <= 3 || *f % 16333 == 0).collect();
     for &f in &fault_fills {
-        for a in short_acts.iter().step_by(9).chain(acts.iter().filter(|a| matches!(a, WAct::Str(n, _) if *n >= b - 1))) {
+        let multi_line = [t(46, 0, 2), WAct::Text { len: b + 1, salt: 22, sep: 0, places: 8, owned: false }];
+        for a in short_acts.iter().step_by(9).chain(acts.iter().filter(|a| matches!(a, WAct::Str(n, _) if *n >= b - 1))).chain(multi_line.iter()) {
             for p in &plans {
                 cases.push(Case::new(f, vec![a.clone()], f % 2 == 1, p.clone()));
             }
@@ -950,6 +1307,11 @@ fn the_pass(quick: bool, with_rendering_thorough: bool) -> Result<PassOut, Strin
     }
     let n = cases.len();
     families.push(("sink_faults", run_family("sink_faults", &cases, b), n));
+
+    // family 4: several writers alive at once on one thread (and one on another thread meanwhile)
+    let cases = build_writers_cases(b);
+    let n = cases.len();
+    families.push(("live_writers", run_writers_family("live_writers", &cases), n));
 
     let (rendered, render_fails) = rendering_pass(with_rendering_thorough);
     Ok(PassOut { b, families, rendered, render_fails })
@@ -986,9 +1348,9 @@ fn main() {
     }
 
     if args.extra.first().map(|s| s.as_str()) == Some("--one-case") {
-        let c: Case = serde_json::from_str(&args.extra[1]).expect("case json");
-        match judge(&c) {
-            Ok(_) => println!("OK"),
+        let c: AnyCase = serde_json::from_str(&args.extra[1]).expect("case json");
+        match c.judge() {
+            Ok(()) => println!("OK"),
             Err(m) => println!("{m}"),
         }
         std::process::exit(0);
@@ -1011,8 +1373,7 @@ fn main() {
         near += t.near_boundary;
         fam_json.push(json!({"family": name, "cases": n, "failing": t.fails.len(), "executions_with_more_than_one_sink_write": t.flush_triggering, "writes_starting_within_45_bytes_of_the_boundary": t.near_boundary, "executions_where_the_final_drop_delivered_bytes": t.delivered_by_drop}));
         if let Some((_, fam, c, m)) = t.fails.iter().min_by_key(|f| f.0) {
-            let sig = c.signature(fam);
-            run.violation(Violation::new(sig, format!("[{fam}, buffered build] fill level {} then {:?}{}, {}: {} ({} cases of this family fail)", c.fill, c.acts.iter().map(|a| format!("{:?}", a).chars().take(60).collect::<String>()).collect::<Vec<_>>(), if c.via_trait { " through Writable::write" } else { "" }, c.finish_name(), m, t.fails.len()), json!({"kind": "case", "case": c})));
+            run.violation(Violation::new(c.signature(fam), format!("[{fam}, buffered build] {}: {} ({} cases of this family fail)", c.describe(), m, t.fails.len()), json!({"kind": "case", "case": c})));
         }
     }
     for (sig, m, rep) in &p.render_fails {
@@ -1042,9 +1403,9 @@ fn main() {
         dbg_execs += f["execs"].as_u64().unwrap_or(0);
         dbg_drop_delivered.push((f["name"].as_str().unwrap_or("").to_string(), f["delivered_by_drop"].as_u64().unwrap_or(0)));
         if let Some(ff) = f.get("first_fail").filter(|x| !x.is_null()) {
-            let c: Case = serde_json::from_value(ff["case"].clone()).unwrap();
-            let sig = format!("dbg:{}", c.signature(f["name"].as_str().unwrap_or("")));
-            run.violation(Violation::new(sig, format!("[{}, flush-per-write (debug assertions) build] fill {} {:?}{}, {}: {}", f["name"].as_str().unwrap_or(""), c.fill, c.acts.iter().map(|a| format!("{:?}", a).chars().take(60).collect::<String>()).collect::<Vec<_>>(), if c.via_trait { " through Writable::write" } else { "" }, c.finish_name(), ff["message"].as_str().unwrap_or("")), json!({"kind": "dbg_case", "case": c})));
+            let c: AnyCase = serde_json::from_value(ff["case"].clone()).unwrap();
+            let name = f["name"].as_str().unwrap_or("");
+            run.violation(Violation::new(format!("dbg:{}", c.signature(name)), format!("[{name}, flush-per-write (debug assertions) build] {}: {}", c.describe(), ff["message"].as_str().unwrap_or("")), json!({"kind": "dbg_case", "case": c})));
         } else if quick && p.families[i].1.fails.is_empty() && f["cases"].as_u64() == Some(p.families[i].2 as u64) && f["digest"].as_u64() != Some(p.families[i].1.digest) {
             run.violation(Violation::new(format!("profile_digest:{}", f["name"].as_str().unwrap_or("")), format!("family {}: the bytes reaching the sink differ between the buffered and the flush-per-write build", f["name"]), json!({"kind": "profile_digest"})));
         }
@@ -1063,19 +1424,26 @@ fn main() {
     run.cov("executions_debug_build", dbg_execs);
     run.cov("integers_rendered", p.rendered);
     run.cov("write_alphabet_size", alphabet(p.b).len() as u64);
+    run.cov("strings_with_separators_in_alphabet", text_alphabet(p.b).len() as u64);
     run.cov("families", Value::Array(fam_json));
     run.cov("debug_build_executions_where_the_final_drop_delivered_bytes", json!(dbg_drop_delivered.iter().cloned().collect::<std::collections::BTreeMap<String, u64>>()));
     run.cov("exhaustive", !quick);
-    run.cov("rule", "state = fill level of the writer's buffer when a write starts (reached by one verbatim string); transitions = executions (fill, write action(s), flush|drop, sink plan) in the buffered build plus the same enumeration in the debug-assertions build; families: single_write (fill x alphabet x {flush, drop}), trait_calls (the same writes through the public trait method Writable::write(&v, &mut writer), which in the flush-per-write build leaves the bytes pending, then drop), drop_by_unwinding (for every (fill, action) of both call styles whose ordinary drop delivered the right bytes: user code panics after the writes while the writer is alive, so the writer is dropped by unwinding; the sink must then hold exactly the bytes written), two_writes, sink_faults; distinct_nontrivial = executions in which the sink received more than one write (a flush happened inside the history); thorough covers ALL B+1 fill levels (trait_calls and drop_by_unwinding: the quick set), quick [0,64] ∪ [B-64,B] ∪ every 1021st");
+    run.cov("rule", "state = fill level of the writer's buffer when a write starts (reached by one verbatim string); transitions = executions (fill, write action(s), flush|drop, sink plan) in the buffered build plus the same enumeration in the debug-assertions build; families: single_write (fill x alphabet x {flush, drop}), trait_calls (the same writes through the public trait method Writable::write(&v, &mut writer), which in the flush-per-write build leaves the bytes pending, then drop), drop_by_unwinding (for every (fill, action) of both call styles whose ordinary drop delivered the right bytes: user code panics after the writes while the writer is alive, so the writer is dropped by unwinding; the sink must then hold exactly the bytes written), two_writes (also: every short string of the alphabet with LF / CR LF inside it as the SECOND write, after a first write that leaves a started line, a finished line or nothing), sink_faults, live_writers (two and three writers ALIVE AT ONCE on one thread over separate sinks, fill levels 0 / 5 / B-2: every history of <= 3 writes from a reduced alphabet (integer, LF, word, two-line string, vector, string of B+1 bytes) distributed over the writers in every way, ended in both / all six orders by drop alone and by flush + drop; and one or two writers live here while ANOTHER THREAD creates, uses and drops a writer over its own sink at every point of every history of <= 2 writes; every sink must hold exactly the bytes written to its own writer); the write alphabet contains, besides one-word strings, &str / String values of 1, 2, 3, 46, B-1, B+1 and 2B+1 bytes with LF, CR, SP or CR LF at the start, in the middle, at the end, at all three and at every 17th byte (strings_with_separators_in_alphabet), and the chars LF, SP, CR, TAB; distinct_nontrivial = executions in which the sink received more than one write (a flush happened inside the history); thorough covers ALL B+1 fill levels (trait_calls and drop_by_unwinding: the quick set), quick [0,64] ∪ [B-64,B] ∪ every 1021st");
     let a = alphabet(p.b);
     for (i, act) in a.iter().enumerate().step_by((a.len() / 5).max(1)) {
         let c = Case::new(p.b - (i % 45), vec![act.clone()], i % 2 == 0, vec![]);
         run.sample(json!({"fill_level": c.fill, "write": format!("{:?}", act).chars().take(80).collect::<String>(), "finish": if c.flush { "flush" } else { "drop" }, "expected_tail": String::from_utf8_lossy(&expected_bytes(&c)[c.fill..]).chars().take(60).collect::<String>()}));
     }
     run.assume("'when the writer is dropped' (C09) is read as every drop, including the drop performed by unwinding when user code panics after its writes returned; the harness's user panic happens outside any writer call, and only for histories whose ordinary drop delivered the right bytes in the same build");
+    run.assume("live_writers histories are enumerated on the worker threads of the pool (which have run other histories before); a history that fails there is re-run on a fresh thread before it is recorded, and replays run on a fresh thread");
     run.assume("sinks never return Ok(0) for a non-empty buffer (std's write_all treats that as an error) and report no error other than Interrupted");
     if !run.has_violations() && (near < 1000 || flushers < 1000) {
         run.machinery_failure("too few writes started near the buffer boundary / triggered a flush");
+    }
+    // non-vacuity of live_writers: in the buffered build a writer flushed in the middle of many histories
+    let live_flushed = p.families.iter().find(|f| f.0 == "live_writers").map_or(0, |f| f.1.flush_triggering);
+    if !run.has_violations() && (live_flushed < 1000 || text_alphabet(p.b).len() < 40) {
+        run.machinery_failure("the live_writers family / the strings with separators are too small");
     }
     // non-vacuity of drop_by_unwinding: in BOTH builds the drop that ran during unwinding had bytes to deliver
     let unwound_rel = p.families.iter().find(|f| f.0 == "drop_by_unwinding").map_or(0, |f| f.1.delivered_by_drop);
